@@ -1,5 +1,6 @@
 import HcipyVerif.Model.PhaseOptics
 import HcipyVerif.Lemmas.Jones
+import HcipyVerif.Lemmas.PassiveOptics
 import HcipyVerif.Gen.PhaseCoef
 import HcipyVerif.Gen.Stokes
 import Mathlib.Analysis.Complex.Exponential
@@ -13,6 +14,7 @@ import Mathlib.Tactic.Ring
 import Mathlib.Tactic.FieldSimp
 import Mathlib.Tactic.Linarith
 import Mathlib.Tactic.Positivity
+import Mathlib.Algebra.Order.Field.Rat
 
 /-!
 # C07 — passive optics never create power; phase-only optics conserve it exactly
@@ -28,6 +30,7 @@ set_option linter.unusedSectionVars false
 
 namespace HcipyVerif.C07
 open HcipyVerif.PhaseOptics HcipyVerif.Gen.PhaseCoef Finset
+open HcipyVerif.Passive HcipyVerif.Jones
 
 /-- A unimodular character `ℝ → ℂ` (abstract `t ↦ exp(i t)`). -/
 structure UChar where
@@ -106,6 +109,14 @@ def genCoef (f : Family) (d : Dir) (n : Rat) : Rat :=
   | .tipTiltMirror, .fwd => tipTiltMirrorFwd | .tipTiltMirror, .bwd => tipTiltMirrorBwd
   | .microLensArray, .fwd => microLensArrayFwd | .microLensArray, .bwd => microLensArrayBwd
   | .atmosphericLayer, .fwd => atmosphericLayerFwd | .atmosphericLayer, .bwd => atmosphericLayerBwd
+  | .thinLens, .fwd => thinLensFwdN0 + thinLensFwdN1 * n | .thinLens, .bwd => thinLensBwdN0 + thinLensBwdN1 * n
+  | .tiltElement, .fwd => tiltElementFwdN0 + tiltElementFwdN1 * n
+  | .tiltElement, .bwd => tiltElementBwdN0 + tiltElementBwdN1 * n
+  | .thinPrism, .fwd => thinPrismFwdN0 + thinPrismFwdN1 * n | .thinPrism, .bwd => thinPrismBwdN0 + thinPrismBwdN1 * n
+  | .prism, .fwd => prismFwdN0 + prismFwdN1 * n | .prism, .bwd => prismBwdN0 + prismBwdN1 * n
+  | .phaseGrating, .fwd => phaseGratingFwd | .phaseGrating, .bwd => phaseGratingBwd
+  | .unimodularApodizer, .fwd => unimodularApodizerFwd | .unimodularApodizer, .bwd => unimodularApodizerBwd
+  | .multiLayerAtmosphere, .fwd => multiLayerAtmosphereFwd | .multiLayerAtmosphere, .bwd => multiLayerAtmosphereBwd
 
 /-- In every family the identified backward exponent is minus the forward one
 (a factor-of-two or sign slip in one direction breaks this). -/
@@ -115,6 +126,9 @@ theorem gen_backward_coef_eq_neg_forward (f : Family) (n : ℚ) :
   simp only [genCoef, phaseApodizerFwd, phaseApodizerBwd, surfaceApodizerFwdN0, surfaceApodizerFwdN1,
     surfaceApodizerBwdN0, surfaceApodizerBwdN1, deformableMirrorFwd, deformableMirrorBwd, segmentedMirrorFwd,
     segmentedMirrorBwd, tipTiltMirrorFwd, tipTiltMirrorBwd, microLensArrayFwd, microLensArrayBwd,
+    thinLensFwdN0, thinLensFwdN1, thinLensBwdN0, thinLensBwdN1, tiltElementFwdN0, tiltElementFwdN1, tiltElementBwdN0,
+    tiltElementBwdN1, thinPrismFwdN0, thinPrismFwdN1, thinPrismBwdN0, thinPrismBwdN1, prismFwdN0, prismFwdN1, prismBwdN0, prismBwdN1,
+    phaseGratingFwd, phaseGratingBwd, unimodularApodizerFwd, unimodularApodizerBwd, multiLayerAtmosphereFwd, multiLayerAtmosphereBwd,
     atmosphericLayerFwd, atmosphericLayerBwd] <;> ring
 
 /-- The identified exponents are the model's formulas: `1·φ`, `(n−1)·k·sag`, `2·k·surface`,
@@ -124,6 +138,9 @@ theorem gen_coef_eq_model (f : Family) (d : Dir) (n : ℚ) : genCoef f d n = coe
   simp only [genCoef, coef, coefFwd, phaseApodizerFwd, phaseApodizerBwd, surfaceApodizerFwdN0, surfaceApodizerFwdN1,
     surfaceApodizerBwdN0, surfaceApodizerBwdN1, deformableMirrorFwd, deformableMirrorBwd, segmentedMirrorFwd,
     segmentedMirrorBwd, tipTiltMirrorFwd, tipTiltMirrorBwd, microLensArrayFwd, microLensArrayBwd,
+    thinLensFwdN0, thinLensFwdN1, thinLensBwdN0, thinLensBwdN1, tiltElementFwdN0, tiltElementFwdN1, tiltElementBwdN0,
+    tiltElementBwdN1, thinPrismFwdN0, thinPrismFwdN1, thinPrismBwdN0, thinPrismBwdN1, prismFwdN0, prismFwdN1, prismBwdN0, prismBwdN1,
+    phaseGratingFwd, phaseGratingBwd, unimodularApodizerFwd, unimodularApodizerBwd, multiLayerAtmosphereFwd, multiLayerAtmosphereBwd,
     atmosphericLayerFwd, atmosphericLayerBwd] <;> ring
 
 /-- For every family of the running code, `backward ∘ forward = id` and `forward ∘ backward = id` on
@@ -136,10 +153,15 @@ theorem family_backward_inverts_forward (c : UChar) (f : Family) (n : ℚ) (E : 
   rw [h]
   exact phase_only_inverse c E _
 
-/-- … and conserves the power of every pixel. -/
-theorem family_pixel_power (c : UChar) (f : Family) (d : Dir) (n : ℚ) (E : ℂ) (u p w : ℝ) :
-    Complex.normSq (E * c.χ ((genCoef f d n : ℝ) * u * p)) * w = Complex.normSq E * w :=
-  phase_only_pixel_power c E _ w
+/-- The multiplier of the running code (κ from the generated table) **is** the model's multiplier
+`χ(coef f d n · u · p)` — this is where κ matters: a wrong coefficient in the code changes `genCoef` and breaks
+`gen_coef_eq_model` — and, being a value of the unimodular character, conserves the power of the pixel.
+(Replaces round 3's `family_pixel_power`, which did not depend on κ.) -/
+theorem family_multiplier_eq_model (c : UChar) (f : Family) (d : Dir) (n : ℚ) (E : ℂ) (u p w : ℝ) :
+    c.χ ((genCoef f d n : ℝ) * u * p) = c.χ ((coef f d n : ℝ) * u * p) ∧
+    Complex.normSq (E * c.χ ((genCoef f d n : ℝ) * u * p)) * w = Complex.normSq E * w := by
+  rw [gen_coef_eq_model]
+  exact ⟨rfl, phase_only_pixel_power c E _ w⟩
 
 /-! ## Magnifier -/
 
@@ -166,6 +188,36 @@ theorem magnifier_backward_inverse (E : ℂ) (s x m : ℝ) (hs : s ≠ 0) (hm : 
 and the unrepaired divisor `sqrt (M₁ M₂)` does not exist for magnifications of opposite sign. -/
 theorem magnifier_old_counterexample : magDivisorSqOld 2 (-1) = none ∧ magDivisorSq 2 (-1) = 2 ∧ magWeightFactor 2 (-1) = 2 := by
   refine ⟨?_, ?_, ?_⟩ <;> norm_num [magDivisorSqOld, magDivisorSq, magWeightFactor, absRat]
+
+/-- The model's `absRat` is the absolute value. -/
+theorem absRat_eq_abs (q : ℚ) : absRat q = |q| := by
+  unfold absRat
+  split
+  · rename_i h; rw [abs_of_neg h]
+  · rename_i h; rw [abs_of_nonneg (not_lt.mp h)]
+
+/-- In the executable magnifier model the weight factor and the squared field divisor are the same number … -/
+theorem magWeightFactor_eq_divisorSq (m1 m2 : ℚ) : magWeightFactor m1 m2 = magDivisorSq m1 m2 := rfl
+
+/-- … namely `|M₁ M₂|`. -/
+theorem magDivisorSq_cast (m1 m2 : ℚ) : ((magDivisorSq m1 m2 : ℚ) : ℝ) = |(m1 : ℝ) * (m2 : ℝ)| := by
+  unfold magDivisorSq
+  rw [absRat_eq_abs]; push_cast; rfl
+
+/-- **Audit R4.** Per-pixel power is conserved by the *executable* magnifier model (what driver op `magnify`
+evaluates and the harness compares with `Magnifier.forward`): field divided by `sqrt (magDivisorSq m₁ m₂)`, weight
+multiplied by `magWeightFactor m₁ m₂`, for all non-zero rational magnifications of either sign. -/
+theorem magnifier_model_power (m1 m2 : ℚ) (h1 : m1 ≠ 0) (h2 : m2 ≠ 0) (E : ℂ) (w : ℝ) :
+    Complex.normSq (E / ((Real.sqrt ((magDivisorSq m1 m2 : ℚ) : ℝ) : ℝ) : ℂ)) * (w * ((magWeightFactor m1 m2 : ℚ) : ℝ))
+      = Complex.normSq E * w := by
+  have hpos : 0 < ((magDivisorSq m1 m2 : ℚ) : ℝ) := by
+    rw [magDivisorSq_cast]
+    exact abs_pos.mpr (mul_ne_zero (by exact_mod_cast h1) (by exact_mod_cast h2))
+  rw [magWeightFactor_eq_divisorSq, Complex.normSq_div, Complex.normSq_ofReal, Real.mul_self_sqrt hpos.le]
+  field_simp
+
+/-- The hypotheses are satisfiable by magnifications of opposite sign. -/
+example : (2 : ℚ) ≠ 0 ∧ (-1 / 2 : ℚ) ≠ 0 := by norm_num
 
 /-! ## Passive elements -/
 
@@ -233,13 +285,10 @@ theorem knife_edge_passive {V W : Type} (enV : V → ℝ) (enW : W → ℝ)
     _ = enW (pad x) := by field_simp
     _ = enV x := hpad x
 
-/-- **Single-mode fibre injection**: the coupled amplitude is `a = Σ conj(E_i) w_i m_i` with a mode
-normalised to `Σ |m_i|² w_i = 1` (`w_i ≥ 0`); its power `|a|²` (output cell area 1) is at most the
-input power `Σ |E_i|² w_i` (Cauchy–Schwarz). -/
-theorem fibre_passive {ι : Type} (s : Finset ι) (E m : ι → ℂ) (w : ι → ℝ) (hw : ∀ i ∈ s, 0 ≤ w i)
-    (hnorm : ∑ i ∈ s, Complex.normSq (m i) * w i = 1) :
-    Complex.normSq (∑ i ∈ s, (starRingEnd ℂ) (E i) * (w i : ℂ) * m i) ≤ ∑ i ∈ s, Complex.normSq (E i) * w i := by
-  -- ‖Σ z_i‖ ≤ Σ ‖z_i‖ = Σ (‖E_i‖ √w_i)(‖m_i‖ √w_i), then the real Cauchy–Schwarz inequality
+/-- Cauchy–Schwarz for the coupling integral, without assuming a normalised mode. -/
+theorem fibre_cauchy_schwarz {ι : Type} (s : Finset ι) (E m : ι → ℂ) (w : ι → ℝ) (hw : ∀ i ∈ s, 0 ≤ w i) :
+    Complex.normSq (∑ i ∈ s, (starRingEnd ℂ) (E i) * (w i : ℂ) * m i)
+      ≤ (∑ i ∈ s, Complex.normSq (E i) * w i) * (∑ i ∈ s, Complex.normSq (m i) * w i) := by
   have h1 : ‖∑ i ∈ s, (starRingEnd ℂ) (E i) * (w i : ℂ) * m i‖
       ≤ ∑ i ∈ s, (‖E i‖ * Real.sqrt (w i)) * (‖m i‖ * Real.sqrt (w i)) := by
     refine (norm_sum_le _ _).trans (le_of_eq ?_)
@@ -254,20 +303,136 @@ theorem fibre_passive {ι : Type} (s : Finset ι) (E m : ι → ℂ) (w : ι →
     apply Finset.sum_congr rfl
     intro i hi
     rw [mul_pow, Real.sq_sqrt (hw i hi), Complex.normSq_eq_norm_sq]
-  have e2 : ∑ i ∈ s, (‖m i‖ * Real.sqrt (w i)) ^ 2 = 1 := by
-    rw [← hnorm]
+  have e2 : ∑ i ∈ s, (‖m i‖ * Real.sqrt (w i)) ^ 2 = ∑ i ∈ s, Complex.normSq (m i) * w i := by
     apply Finset.sum_congr rfl
     intro i hi
     rw [mul_pow, Real.sq_sqrt (hw i hi), Complex.normSq_eq_norm_sq]
-  rw [e1, e2, mul_one] at h2
+  rw [e1, e2] at h2
   rw [Complex.normSq_eq_norm_sq]
   have h0 : 0 ≤ ‖∑ i ∈ s, (starRingEnd ℂ) (E i) * (w i : ℂ) * m i‖ := norm_nonneg _
   calc ‖∑ i ∈ s, (starRingEnd ℂ) (E i) * (w i : ℂ) * m i‖ ^ 2
       ≤ (∑ i ∈ s, (‖E i‖ * Real.sqrt (w i)) * (‖m i‖ * Real.sqrt (w i))) ^ 2 := by
         exact pow_le_pow_left₀ h0 h1 2
-    _ ≤ ∑ i ∈ s, Complex.normSq (E i) * w i := h2
+    _ ≤ _ := h2
+
+/-- The five hypotheses of `knife_edge_passive` are jointly satisfiable by non-trivial maps (`F = 2·`, `F⁻¹ = ·/2`,
+`D = ·/2`, energy `y²`, `κ = 4`); the real instance is `knife_model_passive` below. -/
+example (x : ℝ) : (fun v : ℝ => v ^ 2) (id ((fun y : ℝ => y / 2) ((fun y : ℝ => y / 2) ((fun y : ℝ => 2 * y) (id x))))) ≤ (fun v : ℝ => v ^ 2) x :=
+  knife_edge_passive (fun v : ℝ => v ^ 2) (fun v : ℝ => v ^ 2) id id (fun y => 2 * y) (fun y => y / 2) (fun y => y / 2) 4
+    (by norm_num) (fun _ => rfl) (fun _ => le_refl _) (fun y => by ring) (fun y => by ring)
+    (fun y => by nlinarith [sq_nonneg y]) x
+
+/-- **Single-mode fibre injection**: the coupled amplitude is `a = Σ conj(E_i) w_i m_i` with a mode
+normalised to `Σ |m_i|² w_i = 1` (`w_i ≥ 0`); its power `|a|²` (output cell area 1) is at most the
+input power `Σ |E_i|² w_i`. -/
+theorem fibre_passive {ι : Type} (s : Finset ι) (E m : ι → ℂ) (w : ι → ℝ) (hw : ∀ i ∈ s, 0 ≤ w i)
+    (hnorm : ∑ i ∈ s, Complex.normSq (m i) * w i = 1) :
+    Complex.normSq (∑ i ∈ s, (starRingEnd ℂ) (E i) * (w i : ℂ) * m i) ≤ ∑ i ∈ s, Complex.normSq (E i) * w i := by
+  have h := fibre_cauchy_schwarz s E m w hw
+  rwa [hnorm, mul_one] at h
 
 /-- The hypotheses of `fibre_passive` are satisfiable (one pixel, unit weight, unit mode). -/
 example : ∑ i ∈ ({0} : Finset ℕ), Complex.normSq ((fun _ => (1 : ℂ)) i) * (fun _ => (1 : ℝ)) i = 1 := by simp
+
+/-! ## Executable passive model -/
+
+theorem phase_model_pixel_power (t E : ℕ → Cx ℝ) (w : ℕ → ℝ) (i : ℕ) (ht : (t i).normSq = 1) :
+    (maskFwd t E i).normSq * w i = (E i).normSq * w i ∧ (maskBwd t E i).normSq * w i = (E i).normSq * w i := by
+  simp only [maskFwd, maskBwd, Cx.normSq_mul', Cx.normSq_conj', ht, mul_one, and_self]
+
+theorem phase_model_total_power (t E : ℕ → Cx ℝ) (w : ℕ → ℝ) (n : ℕ) (ht : ∀ i < n, (t i).normSq = 1) :
+    power (maskFwd t E) w n = power E w n := by
+  rw [power_eq_sum, power_eq_sum]
+  exact Finset.sum_congr rfl fun i hi => (phase_model_pixel_power t E w i (ht i (Finset.mem_range.mp hi))).1
+
+theorem cx_ext {a b : Cx ℝ} (h1 : a.re = b.re) (h2 : a.im = b.im) : a = b := by
+  cases a; cases b; simp_all
+
+theorem phase_model_inverse (t E : ℕ → Cx ℝ) (i : ℕ) (ht : (t i).normSq = 1) :
+    maskBwd t (maskFwd t E) i = E i ∧ maskFwd t (maskBwd t E) i = E i := by
+  simp only [Cx.normSq] at ht
+  constructor <;>
+  · apply cx_ext <;>
+    simp only [maskFwd, maskBwd, Cx.mul_re, Cx.mul_im, Cx.conj_re, Cx.conj_im]
+    · linear_combination (E i).re * ht
+    · linear_combination (E i).im * ht
+
+theorem mask_model_passive (t E : ℕ → Cx ℝ) (w : ℕ → ℝ) (n : ℕ) (ht : ∀ i < n, (t i).normSq ≤ 1)
+    (hw : ∀ i < n, 0 ≤ w i) :
+    power (maskFwd t E) w n ≤ power E w n ∧ power (maskBwd t E) w n ≤ power E w n := by
+  rw [power_eq_sum, power_eq_sum, power_eq_sum]
+  constructor <;>
+  · apply Finset.sum_le_sum
+    intro i hi
+    have hi' := Finset.mem_range.mp hi
+    simp only [maskFwd, maskBwd, Cx.normSq_mul', Cx.normSq_conj']
+    have h1 := ht i hi'
+    have h2 := hw i hi'
+    have h3 := Cx.normSq_nonneg' (E i)
+    nlinarith [mul_nonneg h3 h2]
+
+theorem polarizer_passive_tensor (c s : ℝ) (h : c ^ 2 + s ^ 2 = 1) (e : J2 ℝ) (sv : S4 ℝ) (ha : 0 ≤ sv.i)
+    (hphys : sv.q ^ 2 + sv.u ^ 2 + sv.v ^ 2 ≤ sv.i ^ 2) :
+    (jonesStokes (polarizer c s * e) sv).i ≤ (jonesStokes e sv).i := by
+  have h1 := polarizer_ports_split c s h e sv
+  have h2 := jonesStokes_i_nonneg (polarizer (-s) c * e) sv ha hphys
+  linarith
+
+/-- **Executable fibre model** (`Passive.fibreAmp`, driver op `fibre`): the coupled power is at most the
+input power times the mode norm `Σ|m|²w` (which the code normalises to 1; the driver reports it). -/
+theorem fibre_model_passive (E m : ℕ → Cx ℝ) (w : ℕ → ℝ) (n : ℕ) (hw : ∀ i < n, 0 ≤ w i) :
+    (fibreAmp E m w n).normSq ≤ power E w n * power m w n := by
+  rw [Cx.toComplex_normSq, fibreAmp_toComplex, power_eq_sum, power_eq_sum]
+  have := fibre_cauchy_schwarz (Finset.range n) (fun i => (E i).toComplex) (fun i => (m i).toComplex) w
+    (fun i hi => hw i (Finset.mem_range.mp hi))
+  simpa only [← Cx.toComplex_normSq] using this
+
+/-- `backward` re-expands the amplitude on the mode: its power is `|a|²·Σ|m|²w`. -/
+theorem fibre_model_backward_power (a : Cx ℝ) (m : ℕ → Cx ℝ) (w : ℕ → ℝ) (n : ℕ) :
+    power (fibreBack a m) w n = a.normSq * power m w n := by
+  rw [power_eq_sum, power_eq_sum, Finset.mul_sum]
+  apply Finset.sum_congr rfl
+  intro i _
+  simp only [fibreBack, Cx.normSq_mul']; ring
+
+/-- **Executable knife-edge model** (`Passive.knifeRow`, driver op `knife`), any internal length `M > 0`, any
+cut-out `start + N ≤ M`, any focal mask with `|mask| ≤ 1` (the code's is 0, ½ or 1), pre-apodizer and Lyot stop
+with modulus ≤ 1: the row leaves with at most the energy it came with. -/
+theorem knife_model_passive (N M start : ℕ) (hM : 0 < M) (h : start + N ≤ M) (mask apod lyot x : ℕ → ℂ)
+    (hmask : ∀ q < M, ‖mask q‖ ≤ 1) (hap : ∀ j < N, ‖apod j‖ ≤ 1) (hly : ∀ j < N, ‖lyot j‖ ≤ 1) :
+    ∑ j ∈ Finset.range N, ‖lyot j * knifeRow N M start (NearField.kF M) (NearField.kB M) ((M : ℂ)⁻¹) mask (fun i => x i * apod i) j‖ ^ 2
+      ≤ ∑ j ∈ Finset.range N, ‖x j‖ ^ 2 := by
+  have hfil := filter_contracts (NearField.dftPair M hM) (cut_injective N M start h)
+    (D := fun q : Fin M => mask q.1) (fun q => hmask q.1 q.2) (fun j : Fin N => x j.1 * apod j.1)
+  unfold NearField.nsq at hfil
+  rw [← Fin.sum_univ_eq_sum_range (fun j => ‖lyot j * knifeRow N M start (NearField.kF M) (NearField.kB M) ((M : ℂ)⁻¹) mask (fun i => x i * apod i) j‖ ^ 2),
+    ← Fin.sum_univ_eq_sum_range (fun j => ‖x j‖ ^ 2)]
+  calc ∑ j : Fin N, ‖lyot j * knifeRow N M start (NearField.kF M) (NearField.kB M) ((M : ℂ)⁻¹) mask (fun i => x i * apod i) j‖ ^ 2
+      ≤ ∑ j : Fin N, ‖knifeRow N M start (NearField.kF M) (NearField.kB M) ((M : ℂ)⁻¹) mask (fun i => x i * apod i) j‖ ^ 2 := by
+        apply Finset.sum_le_sum
+        intro j _
+        rw [norm_mul, mul_pow]
+        have h1 := hly j.1 j.2
+        have h0 := norm_nonneg (lyot j.1)
+        have : ‖lyot j.1‖ ^ 2 ≤ 1 := by nlinarith
+        nlinarith [sq_nonneg ‖knifeRow N M start (NearField.kF M) (NearField.kB M) ((M : ℂ)⁻¹) mask (fun i => x i * apod i) j‖]
+    _ = ∑ j : Fin N, ‖NearField.filter (NearField.dftPair M hM) (cut N M start h) (fun q : Fin M => mask q.1) (fun j : Fin N => x j.1 * apod j.1) j‖ ^ 2 := by
+        apply Finset.sum_congr rfl
+        intro j _
+        rw [knifeRow_eq_filter N M start hM h mask (fun i => x i * apod i) j]
+    _ ≤ ∑ j : Fin N, ‖x j.1 * apod j.1‖ ^ 2 := hfil
+    _ ≤ ∑ j : Fin N, ‖x j.1‖ ^ 2 := by
+        apply Finset.sum_le_sum
+        intro j _
+        rw [norm_mul, mul_pow]
+        have h1 := hap j.1 j.2
+        have h0 := norm_nonneg (apod j.1)
+        have : ‖apod j.1‖ ^ 2 ≤ 1 := by nlinarith
+        nlinarith [sq_nonneg ‖x j.1‖]
+
+/-- The kernels the driver runs at `Rat` (Gaussian integers, `M ∣ 4`) are these DFT kernels. -/
+theorem knife_exec_kernels (M : ℕ) (hM : M = 1 ∨ M = 2 ∨ M = 4) (n : ℤ) :
+    (gaussKerF M n : Cx ℝ).toComplex = NearField.kF M n ∧ (gaussKerB M n : Cx ℝ).toComplex = NearField.kB M n :=
+  ⟨gaussKerF_eq M hM n, gaussKerB_eq M hM n⟩
 
 end HcipyVerif.C07
